@@ -20,8 +20,8 @@ PROPERTY C09_NoFeedAfterReturn
 PROPERTY C09_Terminates
 CHECK_DEADLOCK FALSE
 '''
-PROPS = ["C09_EveryTableStateReachable", "C09_EveryShapeInEveryState", "C09_EveryTargetCovered", "C09_ItemsKnown",
-         "C09_LabelsUnique", "TypeOK", "C09_NoFeedAfterReturn", "C09_Terminates"]
+PROPS = ["C09_EveryTableStateReachable", "C09_EveryShapeInEveryState", "C09_EveryTargetCovered", "C09_EveryConfigCrossed", "C09_ClassesDisjoint",
+         "C09_LocalStateCrossed", "C09_ItemsKnown", "C09_LabelsUnique", "TypeOK", "C09_NoFeedAfterReturn", "C09_Terminates"]
 
 
 def design_check(ctx):
@@ -131,17 +131,25 @@ def signature(meta, ev):
 def report(ctx, trace, rejected, limit=40):
     """Rejected traces -> violations, one per class (outcome, library function, message) with the
     shortest scenario of the class as the replay case."""
+    ctx.unestablished = getattr(ctx, "unestablished", [])
     if not rejected:
         return {}
     evs = verif.read_ndjson(trace)
     trs = verif.split_traces(evs)
     meta = {m["t"]: m["meta"] for m in verif.read_ndjson(trace + ".meta")}
     groups = {}
+    unestablished = []
     for t, hw in sorted(rejected.items()):
         tr = trs[t]
         ev = next((e for e in tr if e["_line"] == hw), None)
         m = meta[t]
+        if (ev or {}).get("ev") == "app" and not any(e.get("out") in ("PANIC", "STALL") for e in tr):
+            # an application action of the setup did not establish the state the generator meant
+            # (TrApp): the scenario says nothing about the library - undecided, not a violation
+            unestablished.append("%s: %s (%s)" % (" | ".join(m["labels"]), ev.get("act"), m["detail"].get("note", "local state %s" % ev.get("loc"))))
+            continue
         groups.setdefault(signature(m, ev), []).append((t, ev, m))
+    ctx.unestablished = getattr(ctx, "unestablished", []) + unestablished
     for sig, members in sorted(groups.items(), key=lambda kv: str(kv[0]))[:limit]:
         members.sort(key=lambda x: (len(x[2]["labels"]), len(json.dumps(x[2]["scenario"]))))
         t, ev, m = members[0]
@@ -232,7 +240,27 @@ def selftest_binding(ctx, trace):
     def skipfeed(m):
         f = [e for e in m if e["ev"] == "feed"]
         f[0]["i"] = f[0]["i"] + 1
-    mutants = [("serve_ret PANIC", mut(setout("serve_ret", "PANIC"))), ("serve_ret STALL", mut(setout("serve_ret", "STALL"))),
+    def setfield(pred, k, v):
+        def f(m):
+            next(e for e in m if pred(e))[k] = v
+        return f
+    # a trace with a setup whose application action establishes local state (IBB: unflushed bytes)
+    def local(tr):
+        return (tr[0].get("setup", 0) >= 2 and tr[-1]["ev"] == "end" and all(e.get("out") not in ("PANIC", "STALL") for e in tr)
+                and any(e["ev"] == "app" and e.get("loc") == "buffered" and e["i"] <= tr[0]["setup"] for e in tr))
+    lc = [t for t, tr in trs.items() if local(tr)]
+    if not lc:
+        raise verif.Undecided("binding self-test: no accepted trace whose setup leaves unflushed bytes in a bytestream")
+    lbase = [{k: v for k, v in e.items() if k != "_line"} for e in trs[lc[0]]]
+    def lmut(f):
+        m = [dict(e) for e in lbase]
+        return f(m) or m
+    isapp = lambda e: e["ev"] == "app"
+    mutants = [("local state not reached", lmut(setfield(isapp, "loc", "clean"))), ("setup action not established", lmut(setfield(isapp, "est", False))),
+               ("unknown application action", lmut(setfield(isapp, "act", "app:bogus"))),
+               ("unknown handler configuration", lmut(setfield(lambda e: e["ev"] == "reset", "cfg", "bogus"))),
+               ("serve_ret STALL with local state", lmut(setout("serve_ret", "STALL"))),
+               ("serve_ret PANIC", mut(setout("serve_ret", "PANIC"))), ("serve_ret STALL", mut(setout("serve_ret", "STALL"))),
                ("app_ret PANIC", mut(setout("app_ret", "PANIC"))), ("app_ret STALL", mut(setout("app_ret", "STALL"))),
                ("serve_ret removed", mut(drop("serve_ret"))), ("app_ret removed", mut(drop("app_ret"))),
                ("feed out of order", mut(skipfeed)),
@@ -240,15 +268,15 @@ def selftest_binding(ctx, trace):
     p = ctx.path("selftest.ndjson")
     line = 0
     with open(p, "w") as f:
-        for k, (_, m) in enumerate([("unchanged", base)] + mutants):
+        for k, (_, m) in enumerate([("unchanged", base)] + mutants + [("unchanged with local state", lbase)]):
             m[0]["t"] = k + 1
             m[0]["end"] = line + len(m) + 1
             for e in m:
                 f.write(json.dumps(e) + "\n")
             line += len(m)
     rej, r = validate(ctx, p, name="TrPeerInput_selftest")
-    if 1 in rej:
-        raise verif.Undecided("binding self-test: the unchanged trace was rejected")
+    if 1 in rej or len(mutants) + 2 in rej:
+        raise verif.Undecided("binding self-test: an unchanged trace was rejected")
     missed = [mutants[k - 2][0] for k in range(2, 2 + len(mutants)) if k not in rej]
     if missed:
         raise verif.Undecided("binding self-test: corrupted traces ACCEPTED: %s" % missed)
